@@ -40,7 +40,7 @@ FLOORS = {"quick": {"docs_compared": 500, "docs_with_multibyte_neighbour": 300, 
                     "fault_cases": 300, "fault:truncate": 100, "fault:bitflip_header": 100,
                     "fault:byte_body": 30, "fault:garbage": 5, "fault:append": 5, "fault:empty": 1,
                     "fault:version_field": 4, "fault:crash_during_write": 5, "fault:dir_state": 2,
-                    "fault:full_db": 6, "faults_forcing_recompile": 100, "faults_loaded_from_cache": 20},
+                    "fault:full_db": 6, "fault:cache_filled_by_variant": 3, "faults_forcing_recompile": 100, "faults_loaded_from_cache": 20},
           "thorough": {"docs_compared": 15000, "docs_with_multibyte_neighbour": 9000,
                        "fault_cases": 20000, "fault:truncate": 15000, "fault:full_db": 40}}
 NDOC = {"quick": 110, "thorough": 2500}
@@ -51,7 +51,7 @@ FR = ["Foo v. Bar, 1 U.S. 1 (1999)", "2 F.2d 3, 5", "Id. at 5", "Foo, supra, at 
       "Bankr. L. Rep. (CCH) ¶12,345", "Ibid.", "§§ 1-2", "cert. denied", "1 Thompson 5", "T.C. Memo. 2019-233",
       "Peña v. Doe, 5 Cal. 4th 6", "Shapiro v. Thompson, 394 U. S. 618", "2 P.R. 3 (1831)", "1 Wash. 1",
       "supra,§,", "1 CCH Unemployment Ins. Rep. 1", "550 U.S., at 556", "3 Cranch 137"]
-PROBES = ["“1 U.S. 1”", "é1 U.S. 1", "1 U.S. 1é", "see—Id. at 5—ok", "1 U.S. 1 “ 2 F.2d 3", "x § 5 y", "¶12,345"]
+PROBES = ["See Pub. L. No. 94-553 §§ 1-2 and more.", "“1 U.S. 1”", "é1 U.S. 1", "1 U.S. 1é", "see—Id. at 5—ok", "1 U.S. 1 “ 2 F.2d 3", "x § 5 y", "¶12,345"]
 
 
 def plan(tier, seed):
@@ -70,6 +70,8 @@ def prepare(tier, seed, workdir):
 def classify(v):
     if v.get("monitor") == "C14.missing_in_hyperscan":
         o = v.get("observed") or {}
+        if o.get("pattern_has_multibyte_in_class") and "§§" in ((o.get("token") or {}).get("data") or ""):
+            return "multibyte-char-in-character-class"
         if o.get("touches_multibyte"):
             return "hyperscan-multibyte-adjacent"
     if v.get("monitor") == "C14.citations_differ":
@@ -150,6 +152,26 @@ def genuine(text, t, extractors):
     return False
 
 
+_CLASS = None
+
+
+def multibyte_class_pattern(text, t, by_type):
+    """Mechanism of an open known finding: the pattern that produced this reference token contains a
+    non-ASCII character inside a character class ('[§|s]' in the two Pub. L. patterns of reporters-db),
+    which a byte-oriented engine reads as a class of that character's single bytes."""
+    import re
+    global _CLASS
+    if _CLASS is None:
+        _CLASS = re.compile(r"(?<!\\)\[(?!\^)((?:\\.|[^\]\\])*)\]")
+    for e in by_type.get(type(t).__name__, []):
+        body, cls = split_regex(e)
+        if body is None or not body.fullmatch(text, t.start, t.end):
+            continue
+        if any(any(ord(ch) > 127 for ch in m.group(1)) for m in _CLASS.finditer(e.regex)):
+            return True
+    return False
+
+
 def compare_doc(text, rec, ref, hs, by_type):
     from eyecite import get_citations
     if not gen.ascii_ws_domain(text):
@@ -177,6 +199,7 @@ def compare_doc(text, rec, ref, hs, by_type):
         if k not in H:
             rec.violation("C14.missing_in_hyperscan", case,
                           observed=dict(token=M.ser_token(x), touches_multibyte=touches,
+                                        pattern_has_multibyte_in_class=multibyte_class_pattern(text, x, by_type),
                                         context=text[max(0, x.start - 3):x.end + 3]))
     if mb_neighbour:
         rec.count("docs_with_multibyte_neighbour")
@@ -230,7 +253,7 @@ def run_compare(spec, rec):
 
 # ---------------------------------------------------------------- (d) cache faults
 
-TEXT = "See Foo v. Bar, 1 U.S. 1 (1999). Id. at 5. § 3; “2 U. S. 2” Roe, 3 U.S. at 4, supra."
+TEXT = "See Foo v. Bar, 1 U.S. 1 (1999). Id. at 5. § 3; “2 U. S. 2” Roe, 3 U.S. at 4, supra. SEE 4 u.s. 5; ID. AT 6; 7 U.Z. 8"
 
 
 def small_extractors(n_us=6):
@@ -258,6 +281,7 @@ def fault_list(size, rng, tier, shard, nshards, small2=False):
             sorted({0, 1, 64, size // 3, size // 2, size - 1, rng.randrange(size), rng.randrange(size)})]
     out += [dict(kind="dir_state", state=s) for s in ("absent", "file_in_the_way_removed", "other_files")]
     out += [dict(kind="concurrent_first_construction", n=4)]
+    out += [dict(kind="cache_filled_by_variant", variant=v) for v in ("flags", "one_regex", "order")]
     return [f for j, f in enumerate(out) if j % nshards == shard]
 
 
